@@ -216,4 +216,23 @@ Proof.
   repeat split; intros _ x; cbn [u_cor u_correlation u_covariance u_variogram]; rewrite ?E; try reflexivity; ring.
 Qed.
 
+(* the same for ANY normalised correlation, in particular the hole-effect shapes with negative lobes (no positivity
+   is assumed anywhere in derive_canonical / four_definitions_agree) *)
+Lemma user_from_cor_consistent (c : R -> R) var nug lr d :
+  consistent c var nug lr d (user_from_cor OR c var nug lr).
+Proof.
+  unfold consistent, user_from_cor, canon. rsimp.
+  repeat split; intros _ x; cbn [u_cor u_correlation u_covariance u_variogram]; try reflexivity; ring.
+Qed.
+
+Lemma wave_negative_lobe : cor_wave OR (3 * PI / 2) < 0.
+Proof.
+  unfold cor_wave. rsimp. unfold Reqb. destruct (Req_EM_T (3 * PI / 2) 0) as [E|E].
+  - pose proof PI_RGT_0. lra.
+  - replace (3 * PI / 2) with (- (PI / 2) + 2 * PI) at 1 by field.
+    rewrite sin_plus, sin_2PI, cos_2PI, sin_neg, sin_PI2, cos_neg, cos_PI2.
+    pose proof PI_RGT_0. unfold Rdiv. apply Ropp_lt_cancel. rewrite Ropp_0.
+    assert (0 < / (3 * PI * / 2)) by (apply Rinv_0_lt_compat; lra). nra.
+Qed.
+
 End Closed.
